@@ -9,11 +9,10 @@ DELETE/TRUNCATE, ALTER TABLE ADD/DROP COLUMN), hence by every history, names reu
 Corollaries: a dropped table leaves no index and no storage entry; a re-created table is empty
 and index-free; ADD COLUMN keeps every existing value.
 
-"Every listed table is usable with its declared columns" needs catalog and storage to agree
-on the columns (`Agree`).  `C33_agree_full` is false of the code as it is — ALTER TABLE
-ADD/DROP COLUMN rewrites only the stored table's schema copy (`C33_alter_counterexample`,
-after which no INSERT is accepted: `C33_alter_blocks_insert`) — and is proved for histories
-without ALTER (`C33_agree_partial`).
+"Every listed table is usable with its declared columns": catalog and storage agree on the
+columns of every table (`C33_agree`, every history, ALTER included — true since fix ecda3d9a;
+before it ALTER TABLE ADD/DROP COLUMN rewrote only the stored table's schema copy) and a row
+of the declared width is accepted (`C33_insert_of_declared_width_accepted`).
 -/
 namespace VibeProof.C33
 open VibeProof VibeProof.Ddl
@@ -52,6 +51,21 @@ theorem updStored_inv (s : DState) (n : String) (f : STable → STable) (h : Ddl
     split
     · exact hf _ (h3 e0 he0)
     · exact h3 e0 he0
+
+theorem updCatalog_names (s : DState) (n : String) (g : List String → List String) :
+    (updCatalog s n g).catalog.map (fun e => e.1) = s.catalog.map (fun e => e.1) := by
+  simp only [updCatalog, List.map_map]
+  apply List.map_congr_left
+  intro e _
+  simp only [Function.comp]
+  split <;> rfl
+
+theorem updCatalog_inv (s : DState) (n : String) (g : List String → List String) (h : DdlInv s) :
+    DdlInv (updCatalog s n g) := by
+  obtain ⟨h1, h2, h3⟩ := h
+  refine ⟨?_, ?_, h3⟩
+  · unfold Names; rw [updCatalog_names]; exact h1
+  · intro ix hix; rw [updCatalog_names]; exact h2 ix hix
 
 /-- every step keeps catalog, storage and index registry consistent -/
 theorem C33_step_preserves (s : DState) (op : DOp) (h : DdlInv s) : DdlInv (step s op).1 := by
@@ -146,9 +160,11 @@ theorem C33_step_preserves (s : DState) (op : DOp) (h : DdlInv s) : DdlInv (step
     · exact h
     · split
       · exact h
-      · apply updStored_inv _ _ _ h
+      · simp only
+        apply updCatalog_inv
+        apply updStored_inv _ _ _ h
         intro t ht r' hr'
-        simp only [addCol, List.mem_map] at hr' ⊢
+        simp only [addCol, colsAdd, List.mem_map] at hr' ⊢
         obtain ⟨r0, hr0, rfl⟩ := hr'
         simp [ht r0 hr0]
   | dropColumn n c =>
@@ -158,15 +174,19 @@ theorem C33_step_preserves (s : DState) (op : DOp) (h : DdlInv s) : DdlInv (step
     · split
       · exact h
       · split
-        · apply updStored_inv _ _ _ h
-          intro t ht r' hr'
-          unfold dropCol at hr' ⊢
-          cases hk : t.cols.idxOf? c with
-          | none => simp only [hk] at hr' ⊢; exact ht r' hr'
-          | some k =>
-            simp only [hk, List.mem_map] at hr' ⊢
-            obtain ⟨r0, hr0, rfl⟩ := hr'
-            simp only [List.length_eraseIdx, ht r0 hr0]
+        · have h1 : DdlInv (updCatalog (updStored s n (dropCol c)) n (colsDrop c)) := by
+            apply updCatalog_inv
+            apply updStored_inv _ _ _ h
+            intro t ht r' hr'
+            unfold dropCol colsDrop at hr' ⊢
+            cases hk : t.cols.idxOf? c with
+            | none => simp only [hk] at hr' ⊢; exact ht r' hr'
+            | some k =>
+              simp only [hk, List.mem_map] at hr' ⊢
+              obtain ⟨r0, hr0, rfl⟩ := hr'
+              simp only [List.length_eraseIdx, ht r0 hr0]
+          obtain ⟨a, b, c3⟩ := h1
+          exact ⟨a, fun ix hix => b ix (List.mem_filter.mp hix).1, c3⟩
         · exact h
 
 theorem C33_init : DdlInv init := by
@@ -226,39 +246,25 @@ theorem C33_recreated_table_is_fresh (s : DState) (n : String) (cols : List Stri
 /-- ADD COLUMN keeps every existing value: each stored row is the old row with one NULL appended -/
 theorem C33_add_column_keeps_data (t : STable) (c : String) :
     (addCol c t).cols = t.cols ++ [c] ∧ (addCol c t).rows.map (fun r => r.dropLast) = t.rows := by
-  simp [addCol, List.map_map, Function.comp_def]
+  simp [addCol, colsAdd, List.map_map, Function.comp_def]
 
 /-- catalog and storage agree on the declared columns of every table -/
 def Agree (s : DState) : Prop :=
   ∀ n tc t, catCols s n = some tc → stTable s n = some t → tc = t.cols
 
-def NoAlter : List DOp → Prop
-  | [] => True
-  | .addColumn _ _ :: _ => False
-  | .dropColumn _ _ :: _ => False
-  | _ :: ops => NoAlter ops
-
-/-- the property at full strength -/
-def C33_agree_full : Prop := ∀ ops : List DOp, Agree (run init ops)
-
 /-- storage schemas are the catalog entries, table by table -/
 def Lock (s : DState) : Prop := s.stored.map (fun e => (e.1, e.2.cols)) = s.catalog
 
+theorem Lock_catCols (s : DState) (h : Lock s) (n : String) :
+    catCols s n = (stTable s n).map (fun t => t.cols) := by
+  unfold catCols stTable
+  rw [← h, List.find?_map]
+  simp only [Option.map_map, Function.comp_def]
+
 theorem Lock_agree (s : DState) (h : Lock s) : Agree s := by
   intro n tc t hc ht
-  unfold catCols at hc
-  unfold stTable at ht
-  rw [← h, List.find?_map] at hc
-  simp only [Option.map_map] at hc
-  have : (fun e : String × STable => (fun e : String × List String => e.1 == n) ((fun e => (e.1, e.2.cols)) e))
-      = (fun e : String × STable => e.1 == n) := rfl
-  simp only [Function.comp_def] at hc
-  cases hfind : s.stored.find? (fun e => e.1 == n) with
-  | none => rw [hfind] at ht; cases ht
-  | some e =>
-    rw [hfind] at ht hc
-    simp only [Option.map_some, Option.some.injEq] at ht hc
-    rw [← hc, ← ht]
+  rw [Lock_catCols s h n, ht] at hc
+  simpa using hc.symm
 
 theorem updStored_lock (s : DState) (n : String) (f : STable → STable) (h : Lock s)
     (hf : ∀ t, (f t).cols = t.cols) : Lock (updStored s n f) := by
@@ -272,7 +278,20 @@ theorem updStored_lock (s : DState) (n : String) (f : STable → STable) (h : Lo
   · rw [hf]
   · rfl
 
-theorem step_lock (s : DState) (op : DOp) (hop : NoAlter [op]) (h : Lock s) : Lock (step s op).1 := by
+/-- ALTER: the stored schema and the catalog entry change together -/
+theorem alter_lock (s : DState) (n : String) (f : STable → STable) (g : List String → List String)
+    (h : Lock s) (hfg : ∀ t, (f t).cols = g t.cols) : Lock (updCatalog (updStored s n f) n g) := by
+  unfold Lock at h ⊢
+  simp only [updCatalog, updStored, List.map_map]
+  rw [← h, List.map_map]
+  apply List.map_congr_left
+  intro e _
+  simp only [Function.comp]
+  split
+  · rw [hfg]
+  · rfl
+
+theorem step_lock (s : DState) (op : DOp) (h : Lock s) : Lock (step s op).1 := by
   cases op with
   | createTable n cols =>
     simp only [step]; split
@@ -303,62 +322,84 @@ theorem step_lock (s : DState) (op : DOp) (hop : NoAlter [op]) (h : Lock s) : Lo
     simp only [step]; split
     · exact updStored_lock _ _ _ h (fun _ => rfl)
     · exact h
-  | addColumn _ _ => exact absurd hop (by simp [NoAlter])
-  | dropColumn _ _ => exact absurd hop (by simp [NoAlter])
+  | addColumn n c =>
+    simp only [step]; split
+    · exact h
+    · split
+      · exact h
+      · exact alter_lock _ _ _ _ h (fun _ => rfl)
+  | dropColumn n c =>
+    simp only [step]; split
+    · exact h
+    · split
+      · exact h
+      · split
+        · exact alter_lock _ _ _ _ h (fun _ => rfl)
+        · exact h
 
-theorem run_lock (ops : List DOp) : ∀ s, NoAlter ops → Lock s → Lock (run s ops) := by
+theorem run_lock (ops : List DOp) : ∀ s, Lock s → Lock (run s ops) := by
   induction ops with
-  | nil => intro s _ h; exact h
-  | cons op ops ih =>
-    intro s hno h
-    have h1 : NoAlter [op] ∧ NoAlter ops := by
-      cases op <;> simp_all [NoAlter]
-    exact ih _ h1.2 (step_lock s op h1.1 h)
+  | nil => intro s h; exact h
+  | cons op ops ih => intro s h; exact ih _ (step_lock s op h)
 
-/-- for every history without ALTER TABLE ADD/DROP COLUMN (any interleaving of CREATE/DROP
-TABLE, CREATE/DROP INDEX, INSERT, DELETE/TRUNCATE, with names reused) catalog and storage
-agree on the columns of every table -/
-theorem C33_agree_partial (ops : List DOp) (h : NoAlter ops) : Agree (run init ops) :=
-  Lock_agree _ (run_lock ops init h rfl)
+/-- after EVERY history (CREATE/DROP TABLE, CREATE/DROP INDEX, INSERT, DELETE/TRUNCATE, ALTER TABLE
+ADD/DROP COLUMN, names reused) catalog and storage agree on the columns of every table -/
+theorem C33_agree (ops : List DOp) : Agree (run init ops) :=
+  Lock_agree _ (run_lock ops init rfl)
 
-/-- ALTER TABLE ADD COLUMN leaves the catalog entry behind -/
-theorem C33_alter_counterexample : ¬ C33_agree_full := by
-  intro h
-  have := h [.createTable "T" ["A"], .addColumn "T" "B"] "T" ["A"] { cols := ["A", "B"], rows := [] }
-    (by decide) (by decide)
-  revert this
+/-- hence every listed table accepts a row of its declared width -/
+theorem C33_insert_of_declared_width_accepted (ops : List DOp) (n : String) (tc : List String)
+    (r : Row) (hc : catCols (run init ops) n = some tc) (hr : r.length = tc.length) :
+    (step (run init ops) (.insert n r)).2 = none := by
+  have hl := run_lock ops init rfl
+  generalize run init ops = s at hc hl
+  have h1 := Lock_catCols s hl n
+  rw [hc] at h1
+  cases ht : stTable s n with
+  | none => rw [ht] at h1; cases h1
+  | some t =>
+    rw [ht] at h1
+    simp only [Option.map_some, Option.some.injEq] at h1
+    simp only [step, hc, ht]
+    simp [hr, h1]
+
+/-- ALTER leaves the table usable: the widened table accepts the wider row and the old width is
+refused; an index on a dropped column goes away with it -/
+theorem C33_alter_keeps_table_usable :
+    let s := run init [.createTable "T" ["A", "B"], .createIndex "I" "T" ["B"], .insert "T" [.int 1, .int 2],
+      .addColumn "T" "C", .insert "T" [.int 3, .int 4, .int 5], .dropColumn "T" "B"]
+    catCols s "T" = some ["A", "C"] ∧
+    stTable s "T" = some { cols := ["A", "C"], rows := [[.int 1, .null], [.int 3, .int 5]] } ∧
+    s.reg = [] ∧ (step s (.insert "T" [.int 6, .int 7])).2 = none ∧
+    (step s (.insert "T" [.int 6, .int 7, .int 8])).2 = some .columnCount := by
   decide
 
-/-- and after it no INSERT is accepted: a row as wide as the catalog says is rejected by the
-storage layer, a row as wide as the stored table is rejected by the executor -/
-theorem C33_alter_blocks_insert :
-    let s := run init [.createTable "T" ["A"], .addColumn "T" "B"]
-    (step s (.insert "T" [.int 1])).2 = some .columnCount ∧
-    (step s (.insert "T" [.int 1, .int 2])).2 = some .columnCount := by
+/-- the indexes offered to a query on a stored table `n` are indexes OF table `n` — whatever
+other tables exist under names that differ only by case (true since fix 2e2a3d24; before it
+the index of `"t"` was offered to queries on `T`) -/
+theorem C33_index_lookup (norm : String → String) (s : DState) (n : String) (ix : DIndex)
+    (h : DdlInv s) (hn : n ∈ s.stored.map (fun e => e.1)) (hix : ix ∈ indexesFor norm s n) :
+    ix.table = n := by
+  obtain ⟨h1, h2, _⟩ := h
+  obtain ⟨hreg, hf⟩ := List.mem_filter.mp hix
+  have ht : ix.table ∈ s.stored.map (fun e => e.1) := by
+    have := h2 ix hreg
+    unfold Names at h1
+    rw [h1] at this; exact this
+  simp only [Bool.and_eq_true, Bool.or_eq_true, beq_iff_eq] at hf
+  rcases hf.2 with heq | hres
+  · exact heq
+  · simp only [resolve, hn, ht, ↓reduceIte, beq_iff_eq] at hres
+    exact hres.symm
+
+/-- non-vacuity: `"t"` and `T` both exist, each with an index; each lookup returns its own -/
+example :
+    let s := run init [.createTable "t" ["A"], .createTable "T" ["A"], .createIndex "I1" "t" ["A"],
+      .createIndex "I2" "T" ["A"]]
+    let up : String → String := fun x => if x = "t" then "T" else x
+    (indexesFor up s "T").map (fun ix => ix.name) = ["I2"] ∧
+    (indexesFor up s "t").map (fun ix => ix.name) = ["I1"] := by
   decide
-
-/-- the indexes offered to a query on table `n` are indexes OF table `n` -/
-def C33_index_lookup_full (norm : String → String) : Prop :=
-  ∀ (s : DState) (n : String) (ix : DIndex), DdlInv s → ix ∈ indexesFor norm s n → ix.table = n
-
-/-- false of the code as it is: the lookup upper-cases both names, while `"t"` and `T` are
-different tables — an index of `"t"` is offered to (and used by) queries on `T` -/
-theorem C33_case_variant_index_counterexample (norm : String → String) (h : norm "t" = norm "T") :
-    ¬ C33_index_lookup_full norm := by
-  intro hfull
-  have hinv : DdlInv (run init [.createTable "t" ["A"], .createTable "T" ["A"], .createIndex "I" "t" ["A"]]) :=
-    C33_history_preserves _ _ C33_init
-  have := hfull _ "T" { name := "I", table := "t", cols := ["A"] } hinv (by
-    have hs : (run init [.createTable "t" ["A"], .createTable "T" ["A"], .createIndex "I" "t" ["A"]]).reg
-        = [{ name := "I", table := "t", cols := ["A"] }] := by decide
-    simp [indexesFor, hs, h])
-  revert this
-  decide
-
-/-- with an exact comparison the lookup is right for every state -/
-theorem C33_index_lookup_exact (s : DState) (n : String) (ix : DIndex)
-    (h : ix ∈ indexesFor id s n) : ix.table = n := by
-  simpa [indexesFor] using (List.mem_filter.mp h).2
 
 /-- non-vacuity: a history with name reuse, an index, rows, and ALTER; the invariant holds and
 the tables are not empty -/
